@@ -172,9 +172,47 @@ func genC02Emptied(r *rng, tier string, add func(g *G)) {
 	}
 }
 
+// directed: an index of 7-20 buckets at a clean Close, growth (splits) in the next session, another
+// clean restart: the bucket files are exactly as long as their buckets, new buckets land where
+// bucketOffset looks for them.
+func genC02Grow(r *rng, tier string, add func(g *G)) {
+	n := scale(tier, 3, 12)
+	for i := 0; i < n; i++ {
+		g := newG(r.fork(), fmt.Sprintf("C02/grow/%d", i))
+		g.dumpEvery = 0
+		g.params(1<<16, 512, 0.5, false)
+		g.open()
+		g.keys = g.randomKeys(420)
+		first := 135 + g.r.intn(200)
+		for _, k := range g.keys[:first] {
+			g.put(k, g.r.bytes(4))
+		}
+		g.dump()
+		g.close()
+		g.open()
+		g.c.Steps[len(g.c.Steps)-1].Expect = []string{"open ok recovered=0"}
+		g.dump()
+		for _, k := range g.keys[first : first+60] {
+			g.put(k, g.r.bytes(4))
+		}
+		g.dump()
+		g.checkAll()
+		g.close()
+		g.open()
+		g.dump()
+		g.checkAll()
+		for _, k := range g.keys[:first+60] {
+			g.get(k)
+		}
+		g.c.tag("index_growth_across_clean_restarts")
+		add(g)
+	}
+}
+
 func genC02(r *rng, tier string, add func(g *G)) {
 	genC02FreeList(r, tier, add)
 	genC02Emptied(r, tier, add)
+	genC02Grow(r, tier, add)
 	n := scale(tier, 50, 300)
 	for i := 0; i < n; i++ {
 		g := newG(r.fork(), fmt.Sprintf("C02/%d", i))
@@ -331,14 +369,49 @@ func genC04Directed(r *rng, tier string, add func(g *G)) {
 		g.c.tag("compaction_after_recovery_then_crash")
 		add(g)
 	}
+	// Directed: segment ids are reused after a compaction, so the NEWEST segment (by sequence id) can
+	// have a LOWER file id than an older one that still has room. After a crash the newest one must
+	// become current again: a small write after the recovery, a second crash, and the write must
+	// still win over the older record of the same key.
+	for i := 0; i < scale(tier, 4, 40); i++ {
+		g := newG(r.fork(), fmt.Sprintf("%s/idreuse/%d", "C04", i))
+		g.dumpEvery = 0
+		g.params(1024, 512, 0.2, false)
+		g.open()
+		a, b, k := []byte("a"), []byte("b"), []byte("k")
+		g.keys = [][]byte{a, b, k}
+		for j := 0; j < 11; j++ {
+			g.put(a, g.r.bytes(38+g.r.intn(5)))
+		}
+		g.compact() // frees file id 0
+		g.put(b, g.r.bytes(195+g.r.intn(10)))
+		g.put(k, g.r.bytes(295+g.r.intn(10))) // does not fit: the new segment reuses id 0
+		g.dump()
+		g.do("kill")
+		g.isOpen = false
+		g.open()
+		g.dump()
+		if i%2 == 0 {
+			g.put(k, []byte("new"))
+		} else {
+			g.del(k)
+		}
+		g.checkAll()
+		g.do("kill")
+		g.isOpen = false
+		g.open()
+		g.checkAll()
+		g.dump()
+		g.c.tag("newest_segment_has_lower_file_id")
+		add(g)
+	}
 }
 
 // ---------------------------------------------------------------- C03 / C04: process crashes
 func genCrash(prop string, epochsMax int) genFunc {
 	return func(r *rng, tier string, add func(g *G)) {
-		if prop == "C04" {
-			genC04Directed(r, tier, add)
-		}
+		// (two crashes in a row: the directed layouts belong to both properties' generators)
+		genC04Directed(r, tier, add)
 		n := scale(tier, 60, 1500)
 		for i := 0; i < n; i++ {
 			g := newG(r.fork(), fmt.Sprintf("%s/%d", prop, i))
@@ -569,6 +642,14 @@ func genC05(r *rng, tier string, add func(g *G)) {
 			}
 		}
 		g.dump()
+		scan := i%3 == 0
+		if scan {
+			// a scan that has started (its queue holds items of the first bucket chain) before the
+			// compaction and goes on after it
+			g.do("iternew v")
+			g.do("iternext v")
+			g.c.tag("scan_in_progress_across_compaction")
+		}
 		g.do("cpick", "cpick ok")
 		steps := 0
 		for {
@@ -605,6 +686,13 @@ func genC05(r *rng, tier string, add func(g *G)) {
 			}
 		}
 		g.c.tag("compaction_steps")
+		if scan && g.isOpen {
+			// segment ids freed by the compaction get reused by later writes
+			for j := 0; j < 12; j++ {
+				g.put(g.pick(), g.r.bytes(40+g.r.intn(60)))
+			}
+			g.drainIter("v")
+		}
 		g.checkAll()
 		g.dump()
 		// resurrection shows only after a recovery
